@@ -182,7 +182,59 @@ AUDITED_NO_PROGRESS = {
 }
 
 
+def find_result_checked_before_use(ctx):
+    """'Optional keys are absent': an iterator obtained from find() on a map / set is dereferenced only where it is known not to be end()
+    (an `it == m.end()` test with polarity false dominates the use, and nothing has re-assigned the iterator since - condition facts die
+    with writes to the variables they mention).  Dereferencing end() is undefined behaviour - in practice a crash inside the tick."""
+    P, cg = ctx.prog, ctx.cg
+    n = 0
+    for f in sorted(P.fns.values(), key=lambda x: (x.file, x.line)):
+        if not f.file.startswith("oomd/") or f.file.endswith("Test.cpp") or "fixtures" in f.file or not f.cfg:
+            continue
+        its = set()
+        for d in f.all("decl"):
+            for v in f.nodes[d].get("vars", []):
+                if v.get("init") is not None and v.get("init", -1) >= 0:
+                    c = f.nodes[f.strip(v["init"])]
+                    if c["k"] == "call" and c.get("cname") == "find" and "recv" in c and re.search(r"(unordered_)?(multi)?(map|set)\b", c.get("callee") or ""):
+                        its.add(v["name"])
+        for nm in list(its):
+            pass
+        for i_, n_ in enumerate(f.nodes):
+            if n_["k"] in ("bin", "call") and n_.get("op") == "=":
+                rhs = n_.get("r", (n_.get("args") or [None])[0])
+                lhs = n_.get("l", n_.get("recv"))
+                if rhs is not None and lhs is not None:
+                    c = f.nodes[f.strip(rhs)]
+                    ln = f.nodes[f.strip(lhs)]
+                    if c["k"] == "call" and c.get("cname") == "find" and re.search(r"(unordered_)?(multi)?(map|set)\b", c.get("callee") or "") and ln.get("k") == "ref" and ln.get("dk") == "local":
+                        its.add(ln["name"])
+        if not its:
+            continue
+        fl = None
+        for i, nd in enumerate(f.nodes):
+            if nd["k"] != "call" or nd.get("op") not in ("->", "*") or "recv" not in nd or f.pos_of(i) is None:
+                continue
+            r = f.nodes[f.strip(nd["recv"])]
+            if r.get("k") != "ref" or r.get("name") not in its:
+                continue
+            fl = fl or Flow(P, f, cg=cg)
+            g = fl.guards(i)
+            nm = r["name"]
+            ok = any(isinstance(k, str) and p is False and re.search(r"(?<![\w.])%s(?![\w])" % re.escape(nm), k) and "end()" in k and "==" in k for k, p in g)
+            n += 1
+            ctx.use(f)
+            ctx.check(ok, "find-result-checked-before-use:%s:%s@%d" % (short(f), nm, nd.get("line", 0)), "guarded_by (facts die with re-assignment)", f.loc(i),
+                      "the iterator is dereferenced only where it was found",
+                      "%s is dereferenced in %s without a dominating '%s != end()' test that is still valid at that point (the iterator was re-assigned, or "
+                      "never tested): when the key is absent this reads through end() - undefined behaviour, a crash of the tick rather than 'statistic "
+                      "unavailable'" % (nm, f.pq, nm), witness_path(f, fl, i))
+    ctx.counters["find_deref_sites"] = n
+    ctx.floor("find_deref_sites", 8, "dereferences of iterators returned by map/set find()")
+
+
 def run(ctx):
+    find_result_checked_before_use(ctx)
     from .C15 import every_context_refreshed
     every_context_refreshed(ctx)          # a second advance after erase() skips a context (stale statistics) or steps past end()
     borrowed_fd_not_consumed(ctx)
